@@ -1398,8 +1398,11 @@ func vC20RunOnce(o *vC20Out, sc *vC20Scenario, passNontrivial bool) bool {
 // thorough tier only: small scopes enumerated completely
 //   - every legal length x four prefix shapes x every boundary IPv4 address (embed + extract),
 //   - every legal length x every single-bit change of an embedded address (extract),
-//   - SERVFAIL x every ordered pair of EDE codes 0..30 through the handler.
+//   - SERVFAIL x every ordered pair of EDE codes 0..30 through the handler,
+//   - the request tree's bound: every listed number of seconds and "past" x every
+//     folding party x A TTLs {0,1,60,600,3600} x {no SOA, SOA 3600/60} x {no chain, CNAME 900}.
 func vC20Exhaustive(o *vC20Out) {
+	vC20ExhaustiveCut(o)
 	shapes := []string{"2001:db8:122:344:5:6:7:8", "::", "ffff:ffff:ffff:ffff:ff:ffff:ffff:ffff", "::ffff:0:0"}
 	for _, bits := range vC20LegalBits {
 		for _, sh := range shapes {
@@ -1448,6 +1451,55 @@ func vC20Exhaustive(o *vC20Out) {
 			a.Answer = []dns.RR{&dns.A{Hdr: dns.RR_Header{Name: "h.ex.t.", Rrtype: dns.TypeA, Class: dns.ClassINET, Ttl: 300}, A: net.IPv4(192, 0, 9, 1).To4()}}
 			vC20Run(o, &vC20Scenario{cfg: cfg, req: req, hasOPT: true, wireBorn: (e1+e2)%2 == 0, client: net.ParseIP("203.0.113.9"),
 				down: down, alKind: 5, aResp: a, wf: true}, true)
+		}
+	}
+}
+
+func vC20ExhaustiveCut(o *vC20Out) {
+	type bound struct {
+		past bool
+		secs int64
+	}
+	bounds := []bound{{past: true, secs: 0}, {past: true, secs: 3}}
+	for _, s := range vC20CutSecs {
+		bounds = append(bounds, bound{secs: s})
+	}
+	n := 0
+	for _, b := range bounds {
+		for route := 0; route <= 3; route++ {
+			for _, attl := range []uint32{0, 1, 60, 600, 3600} {
+				for _, soa := range []bool{false, true} {
+					for _, chain := range []bool{false, true} {
+						cfg := &config.Config{}
+						cfg.DNS64.Enabled = true
+						cfg.DNS64.Prefixes = []string{"64:ff9b::/96", "2001:db8:64::/48"}
+						req := new(dns.Msg)
+						req.SetQuestion("h.ex.t.", dns.TypeAAAA)
+						req.SetEdns0(1232, true)
+						down := new(dns.Msg)
+						down.SetQuestion("h.ex.t.", dns.TypeAAAA)
+						down.Response = true
+						down.SetEdns0(1232, true)
+						if soa {
+							down.Ns = []dns.RR{&dns.SOA{Hdr: dns.RR_Header{Name: "t.", Rrtype: dns.TypeSOA, Class: dns.ClassINET, Ttl: 3600},
+								Ns: "ns.t.", Mbox: "h.t.", Serial: 1, Refresh: 7200, Retry: 3600, Expire: 604800, Minttl: 60}}
+						}
+						a := new(dns.Msg)
+						a.SetQuestion("h.ex.t.", dns.TypeA)
+						a.Response = true
+						owner := "h.ex.t."
+						if chain {
+							a.Answer = append(a.Answer, &dns.CNAME{Hdr: dns.RR_Header{Name: owner, Rrtype: dns.TypeCNAME, Class: dns.ClassINET, Ttl: 900}, Target: "c0.u."})
+							owner = "c0.u."
+						}
+						a.Answer = append(a.Answer, &dns.A{Hdr: dns.RR_Header{Name: owner, Rrtype: dns.TypeA, Class: dns.ClassINET, Ttl: attl}, A: net.IPv4(192, 0, 9, 1).To4()})
+						n++
+						vC20Run(o, &vC20Scenario{cfg: cfg, req: req, hasOPT: true, wireBorn: n%3 == 0, client: net.ParseIP("203.0.113.9"),
+							down: down, alKind: 5, aResp: a, wf: true,
+							cut: &vC20CutPlan{route: route, past: b.past, secs: b.secs, extra: int64(1 + n%97), late: n % 2}}, true)
+					}
+				}
+			}
 		}
 	}
 }
